@@ -279,6 +279,8 @@ def parseColVal? (s : String) : Option ColVal :=
   else match s.splitOn ":" with
     | ["i32", x] => (bv? 32 x).map .i32
     | ["i64", x] => (bv? 64 x).map .i64
+    | ["f32", x] => if x.length = 8 then (hexNat? x).map fun n => .f32 (BitVec.ofNat 32 n) else none
+    | ["f64", x] => if x.length = 16 then (hexNat? x).map fun n => .f64 (BitVec.ofNat 64 n) else none
     | ["b0"] => some (.bool false)
     | ["b1"] => some (.bool true)
     | _ => none
